@@ -426,6 +426,72 @@ def path(ctx, arg):
         ctx.tag('rerender_fixed_point')
 
 
+def path_cli(ctx, arg):
+    """C01, CLI layer: OutputFormatter::format_output(zerv, fmt, prefix, no template) = prefix ++ rendering, on one line;
+    `zerv check --format fmt` (run_check_command) accepts the rendering and reports it as already normal"""
+    I, w = ctx.I, ctx.w
+    schema, cfg, fmt = arg['schema'], arg.get('cfg', {}), arg['fmt']
+    name = arg.get('name', '')
+    core, extra, build = [[comp_value(I, c) for c in part] for part in schema]
+    r = I.call('ZervSchema::new', [VecObj(core), VecObj(extra), VecObj(build)])
+    if r.variant != 0:
+        ctx.tag('schema_invalid')
+        return
+    sv = SymVars(w, I, used_vars(schema), cfg)
+    zerv = Adt('Zerv', 0, [r.fields[0], sv.value(I)])
+    npre = arg.get('prefix_len')
+    prefix = None
+    if npre is not None:
+        prefix = []
+        for i in range(npre):
+            c = z3.Int('pfx%d' % i)
+            w.assume(C.domain(c))
+            prefix.append(c)
+
+    def viol(clause, m, detail, **kw):
+        ctx.violation(clause=clause, schema=schema_json(schema), schema_text=schema_repr(schema), fmt=fmt, vars=sv.concrete(m), detail=detail,
+                      prefix=None if prefix is None else [m.eval(c, model_completion=True).as_long() for c in prefix], vkey='%s|%s|%s' % (clause, fmt, name), **kw)
+    ty = 'SemVer' if fmt == 'semver' else 'PEP440'
+    try:
+        ro = I.call('OutputFormatter::format_output', [ValPtr(zerv), Str([ord(c) for c in fmt]), some(Str(prefix)) if prefix is not None else none(), ValPtr(none())])
+        v = I.call('<%s as From<Zerv>>::from' % ty, [deep_copy(zerv)])
+        printed = chars_of(I.call('<%s as ToString>::to_string' % ty, [ValPtr(v)]))
+    except Panic as e:
+        viol('panic', w.get_model(), str(e))
+        return
+    if ro.variant != 0:
+        viol('cli_output', w.get_model(), 'format_output failed')
+        return
+    out = chars_of(ro.fields[0])
+    exp = (prefix or []) + printed
+    m = text_diff(w, out, exp)
+    if m is not None:
+        viol('cli_output', m, 'format_output gives %r, expected prefix + rendering %r' % (mstr(m, out), mstr(m, exp)), out=mstr(m, out), expected=mstr(m, exp))
+        return
+    nl = [c == 10 for c in printed if not isinstance(c, int)] + [z3.BoolVal(True) for c in printed if isinstance(c, int) and c == 10]
+    if nl and w.find(z3.Or(nl)) is not None:
+        viol('cli_output', w.find(z3.Or(nl)), 'rendering contains a newline')
+        return
+    ctx.tag('cli_prefix_exact')
+    # zerv's own `check` command on the rendering
+    try:
+        rc = I.call('run_check_command', [Adt('CheckArgs', 0, [StringObj(list(printed)), some(mkstring(fmt))])])
+    except Panic as e:
+        viol('panic', w.get_model(), 'check: ' + str(e))
+        return
+    if rc.variant != 0:
+        m = w.get_model()
+        viol('check_rejects', m, '`zerv check --format %s` rejects the rendering %r' % (fmt, mstr(m, printed)), out=mstr(m, printed))
+        return
+    msg = chars_of(rc.fields[0])
+    tail = [ord(c) for c in ' format']
+    if len(msg) < len(tail) or text_diff(w, msg[-len(tail):], tail) is not None:
+        m = w.get_model()
+        viol('check_rejects', m, '`zerv check` reports a different normal form for %r: %r' % (mstr(m, printed), mstr(m, msg)), out=mstr(m, printed))
+        return
+    ctx.tag('check_accepts_as_normal')
+
+
 NF_PATTERN = (r'^(?:[1-9][0-9]*!)?(?:0|[1-9][0-9]*)(?:\.(?:0|[1-9][0-9]*))*(?:(?:a|b|rc)(?:0|[1-9][0-9]*))?'
               r'(?:\.post(?:0|[1-9][0-9]*))?(?:\.dev(?:0|[1-9][0-9]*))?'
               r'(?:\+(?:0|[1-9][0-9]*|[0-9]*[a-z][a-z0-9]*)(?:\.(?:0|[1-9][0-9]*|[0-9]*[a-z][a-z0-9]*))*)?$')
